@@ -92,7 +92,7 @@ def main():
                        "or by the running step script killing its parent",
                        "develop mode, import SCM sources, local builds only (no archive/share)"]
     # (A) + generation: all TLC jobs are independent and run concurrently
-    num = 120 if quick else 1500
+    num = 120 if quick else 800
     jobs = [("main", "BobBuild", "BobBuild.cfg" if quick else "BobBuild_thorough.cfg", dict(coverage=True, timeout=3000))]
     jobs += [("reach:" + inv, "BobBuild", "BobBuild_reach_%s.cfg" % inv, dict(timeout=900)) for inv in ("ReachPruneThenOk", "ReachSkip")]
     jobs += [("weak:" + w, "BobBuild", "BobBuild_weak_%s.cfg" % w, dict(timeout=1800)) for w in WEAK]
@@ -113,11 +113,11 @@ def main():
         if not r.printed:
             raise tlc.TlcError("weakened model %s produced no counterexample (vacuous weakening)" % w)
         rep.add_tlc(r, "BobBuild Weak={%s} (counterexample generation)" % w)
-        sel = select(r.printed, 7 if quick else 60, rng)
+        sel = select(r.printed, 7 if quick else 30, rng)
         rep.extra.setdefault("weakened_model_counterexamples", {})[w] = {"found": len(r.printed), "replayed": len(sel)}
         behaviours += [(h, "cex:" + w) for h in sel]
     g = out["gen"]
-    sel = select(g.printed, 36 if quick else 600, rng,
+    sel = select(g.printed, 36 if quick else 250, rng,
                  need=lambda h: any(x["a"] in ("Kill", "Fail") for x in h) and any(x["a"] == "End" for x in h))
     behaviours += [(h, "simulate") for h in sel]
     rep.extra["simulated"] = {"generated": len(g.printed), "replayed": len(sel)}
@@ -162,13 +162,13 @@ def main():
         if not r.printed:
             raise tlc.TlcError("weakened model %s produced no counterexample (vacuous weakening)" % w)
         rep.add_tlc(r, "BobBuild Weak={%s} (counterexample generation)" % w)
-        sel = select(r.printed, 7 if quick else 60, rng)
+        sel = select(r.printed, 7 if quick else 30, rng)
         rep.extra.setdefault("weakened_model_counterexamples", {})[w] = {"found": len(r.printed), "replayed": len(sel)}
         behaviours += [(h, "cex:" + w) for h in sel]
     # simulate
-    num = 120 if quick else 1500
+    num = 120 if quick else 800
     g = tlc.run("BobBuild", "BobBuild_gen.cfg", workers=1, simulate="num=%d" % num, depth=160, seed=a.seed + 1, timeout=900)
-    sel = select(g.printed, 36 if quick else 600, rng,
+    sel = select(g.printed, 36 if quick else 250, rng,
                  need=lambda h: any(x["a"] in ("Kill", "Fail") for x in h) and any(x["a"] == "End" for x in h))
     behaviours += [(h, "simulate") for h in sel]
     rep.extra["simulated"] = {"generated": len(g.printed), "replayed": len(sel)}
@@ -180,9 +180,9 @@ def main():
     enum_tasks = []
     with mp.get_context("fork").Pool(min(8, common.workers())) as pool:
         for r in pool.imap_unordered(replay_task, tasks):
-            if not quick and r["first_kill_events"] and len(enum_tasks) < 4000 and r["origin"].startswith("cex"):
+            if not quick and r["first_kill_events"] and len(enum_tasks) < 1000 and r["origin"].startswith("cex"):
                 # thorough: every recorded event of the interrupted invocation as kill point (fault enumeration)
-                if sum(1 for t in enum_tasks if t[1] is r["hist"]) == 0 and len({id(t[1]) for t in enum_tasks}) < 40:
+                if sum(1 for t in enum_tasks if t[1] is r["hist"]) == 0 and len({id(t[1]) for t in enum_tasks}) < 20:
                     enum_tasks += [(100000 + len(enum_tasks) + k, r["hist"], r["origin"] + ":enum", False, 1, cache, k)
                                    for k in range(r["first_kill_events"])]
             rep.traces += 1
